@@ -112,7 +112,9 @@ claim('C07',
       'value equality (needs associativity/commutativity of user functions and arithmetic).')
 claim('C08',
       'join shipping (hash/hash with keyer1/keyer2 through the same group_by constructor, forward/broadcast, forward/forward for keyed '
-      'joins); protocol and state-reset rules on the five join operators (C05).',
+      'joins); protocol and state-reset rules on the five join operators (C05); mirror symmetry of the two sides; the interval join\'s '
+      'window comparisons in the order domain (prune iff r < l-lower, match iff r <= l+upper, advance only when l+upper < last_seen or at '
+      'the end of the iteration, probe/store by the element\'s own key).',
       'the relational result for arbitrary multisets and arrival orders; outer-join bookkeeping is only covered by the state/protocol rules.')
 
 claim('C12',
